@@ -42,6 +42,7 @@ pub(super) trait PieceType {
                     src,
                     moves,
                     promotion: false,
+                    promoted: [0; 3],
                 })
             }
         }
@@ -63,6 +64,7 @@ pub(super) trait PieceType {
                     src,
                     moves,
                     promotion: false,
+                    promoted: [0; 3],
                 })
             }
         }
@@ -110,6 +112,7 @@ impl PieceType for Pawn {
                     src,
                     moves,
                     promotion: src.rank() == seventh_rank,
+                    promoted: [0; 3],
                 });
             }
         }
@@ -128,6 +131,7 @@ impl PieceType for Pawn {
                         src,
                         moves,
                         promotion: src.rank() == seventh_rank,
+                    promoted: [0; 3],
                     });
                 }
             }
@@ -166,6 +170,7 @@ impl PieceType for Pawn {
                             src,
                             moves: dest,
                             promotion: false,
+                            promoted: [0; 3],
                         });
                     }
                 }
@@ -287,6 +292,7 @@ impl King {
                 src: king_sq,
                 moves,
                 promotion: false,
+                promoted: [0; 3],
             })
         }
     }
